@@ -1,10 +1,101 @@
 (* C20 -- Bit-level readers and writers agree on every primitive.
-   Property theorems only.  Model: Model/BitIO.v (hand model, tie C: tools/harness/C20.py). *)
+   Property theorems only; each closed by `exact <lemma>`.
+   Model: Model/BitIO.v -- byte-level state machines mirroring BitstreamWriter,
+   BitstreamReader (bitstream/io.py) and the validator's reader (decoder/io.py);
+   hand model tied to the code on every run by tools/harness/C20.py (tie C).
+   Gen/ExpGolombLen.v is REGENERATED from bitstream/exp_golomb.py on every run (tie T).
+
+   Vocabulary: `r_view s` / `d_view s` = the bits still to be read (MSB first) from the
+   reader state; `r_bitpos` / `d_bitpos` = to_bit_offset(tell()); `r_wf`/`d_wf` = the
+   class invariant 0 <= next_bit <= 7, offset >= 0 (holds after construction, kept by every
+   operation).  `r_reads m s v n rest`: m returns value v without exception, leaves
+   exactly `rest` to be read, tell() advanced by exactly n bits, file untouched. *)
 From Coq Require Import ZArith List Bool Lia.
-From VC2 Require Import Base.PyZ Model.BitIO Proofs.BitIOProofs.
+From VC2 Require Import Base.PyZ Gen.ExpGolombLen Model.BitIO Proofs.BitIOProofs.
 Import ListNotations.
 Open Scope Z_scope.
 
+(* ---- the exp-Golomb length functions equal the number of bits written (all v) ---- *)
+Theorem C20_uint_len : forall v, 0 <= v ->
+  Z.of_nat (length (uint_bits v)) = exp_golomb_length v /\ exp_golomb_length_dom v = true.
+Proof. exact (fun v H => conj (uint_bits_length v H) (exp_golomb_length_dom_ok v H)). Qed.
+Theorem C20_sint_len : forall v,
+  Z.of_nat (length (sint_bits v)) = signed_exp_golomb_length v /\ signed_exp_golomb_length_dom v = true.
+Proof. exact (fun v => conj (sint_bits_length v) (signed_exp_golomb_length_dom_ok v)). Qed.
+
+(* ---- BitstreamReader reads back what was written, at the same positions (all values) ---- *)
+Theorem C20_nbits_roundtrip_bitstream_reader : forall n v s rest,
+  r_wf s -> r_rem s = None -> 0 <= n -> 0 <= v < 2 ^ n ->
+  r_view s = nbits_list (Z.to_nat n) v ++ rest -> r_reads (r_read_nbits n s) s v (Z.to_nat n) rest.
+Proof. exact r_nbits_roundtrip. Qed.
+Theorem C20_uint_roundtrip_bitstream_reader : forall v s rest,
+  r_wf s -> r_rem s = None -> 0 <= v ->
+  r_view s = uint_bits v ++ rest -> r_reads (r_read_uint s) s v (length (uint_bits v)) rest.
+Proof. exact r_uint_roundtrip. Qed.
+Theorem C20_sint_roundtrip_bitstream_reader : forall v s rest,
+  r_wf s -> r_rem s = None ->
+  r_view s = sint_bits v ++ rest -> r_reads (r_read_sint s) s v (length (sint_bits v)) rest.
+Proof. exact r_sint_roundtrip. Qed.
+Theorem C20_bitarray_roundtrip_bitstream_reader : forall (l : list bool) s rest,
+  r_wf s -> r_rem s = None ->
+  r_view s = l ++ rest -> r_reads (r_read_bitarray (Z.of_nat (length l)) s) s (map b2z l) (length l) rest.
+Proof. exact r_bitarray_roundtrip. Qed.
+Theorem C20_bytes_roundtrip_bitstream_reader : forall (l : list Z) s rest,
+  r_wf s -> r_rem s = None -> Forall (fun b => 0 <= b < 256) l ->
+  r_view s = flat_map (nbits_list 8) l ++ rest ->
+  r_reads (r_read_bytes (Z.of_nat (length l)) s) s l (8 * length l) rest.
+Proof. exact r_bytes_roundtrip. Qed.
+
+(* ---- the validator's reader likewise ---- *)
+Theorem C20_nbits_roundtrip_decoder_reader : forall n v s rest,
+  d_wf s -> 0 <= n -> 0 <= v < 2 ^ n ->
+  d_view s = nbits_list (Z.to_nat n) v ++ rest -> d_reads (d_read_nbits n s) s v (Z.to_nat n) rest.
+Proof. exact d_nbits_roundtrip. Qed.
+Theorem C20_uint_roundtrip_decoder_reader : forall v s rest,
+  d_wf s -> 0 <= v ->
+  d_view s = uint_bits v ++ rest -> d_reads (d_read_uint s) s v (length (uint_bits v)) rest.
+Proof. exact d_uint_roundtrip. Qed.
+Theorem C20_sint_roundtrip_decoder_reader : forall v s rest,
+  d_wf s ->
+  d_view s = sint_bits v ++ rest -> d_reads (d_read_sint s) s v (length (sint_bits v)) rest.
+Proof. exact d_sint_roundtrip. Qed.
+
+(* ---- the data-dependent exp-Golomb loops never exhaust the model's fuel ---- *)
+Theorem C20_read_uint_fuel_sufficient : forall r d, r_wf r -> d_wf d ->
+  snd (r_read_uint r) <> Err EFuel /\ snd (d_read_uint d) <> Err EFuel /\ snd (d_read_uintb d) <> Err EFuel.
+Proof. exact (fun r d Wr Wd => conj (r_read_uint_no_fuel r Wr) (conj (d_read_uint_no_fuel d Wd) (d_read_uintb_no_fuel d Wd))). Qed.
+
+(* ---- bounded blocks, for EVERY remaining count k <= 0 (zero and negative lengths included) ---- *)
 Theorem C20_read_past_end_bitstream_reader : forall s k,
   r_rem s = Some k -> k <= 0 -> r_read_bit s = (r_set_rem s (Some (k - 1)), Ok 1).
 Proof. exact r_read_past_end. Qed.
+Theorem C20_read_uint_past_end_bitstream_reader : forall s k,
+  r_wf s -> r_rem s = Some k -> k <= 0 -> r_read_uint s = (r_set_rem s (Some (k - 1)), Ok 0).
+Proof. exact r_uint_past_end. Qed.
+Theorem C20_write_past_end : forall s k b,
+  w_rem s = Some k -> k <= 0 ->
+  w_write_bit b s = (w_set_rem s (Some (k - 1)), if b then None else Some EValue).
+Proof. exact w_write_past_end. Qed.
+Theorem C20_read_past_end_decoder_reader : forall s, d_left s = 0 -> d_read_bitb s = (s, Ok 1).
+Proof. exact d_read_past_end. Qed.
+Theorem C20_bounded_block_end_value : forall r w k,
+  (r_rem r = Some k -> r_block_end r = (r_set_rem r None, Ok (Z.max 0 k))) /\
+  (w_rem w = Some k -> w_block_end w = (w_set_rem w None, Ok (Z.max 0 k))).
+Proof. exact (fun r w k => conj (block_end_value_r r k) (block_end_value_w w k)). Qed.
+
+(* ---- negative block lengths: the readers differ (read_bitb tests bits_left == 0); the
+   validator cannot produce one: its three assignments to bits_left are a read_nbits value,
+   a difference guarded by InvalidSliceYLength, and 8 * scaler * read_uint_lit (harness AST scan) ---- *)
+Theorem C20_readers_agree_negative_length_refuted :
+  exists f len body, len < 0 /\ r_run [PBlock len body] (r_init f 0) <> d_run [PBlock len body] (d_init f 0).
+Proof. exact readers_differ_negative. Qed.
+Theorem C20_decoder_block_lengths_nonneg : forall n s s' y left,
+  d_read_nbits n s = (s', Ok y) -> (y >? left) = false -> 0 <= y /\ 0 <= left - y.
+Proof. exact d_block_lengths_nonneg. Qed.
+
+(* non-vacuity *)
+Example C20_example :
+  uint_bits 5 = [false; true; false; true; true] /\
+  r_read_uint (r_init [88] 0) = (mkR [88] 1 2 (Some 88) None, Ok 5) /\
+  d_read_sint (d_init [92] 0) = (mkD [92] 1 1 (Some 92) 0 None, Ok (-5)).
+Proof. vm_compute. repeat split; reflexivity. Qed.
